@@ -431,6 +431,9 @@ NUMBERS = [0, 1, 2, 3, 4, 5, 6, 7, 8, 12, 16, 24, 32, 63, 64, 65, 128, 256, 1024
            2 ** 2000 + 2, 3 * 2 ** 70, -1, -2, -4, -8, -3,
            0.5, 0.25, 1.0, 2.0, 4.0, 8.0, 3.5, 1.5, 2.5, 6.0, 0.1, -0.5, -4.0, 1e300, 1e-300, float("inf"),
            float("-inf"), float("nan"), 4.000001, 3.999999, 16.0, 2.0 ** 60, True, False]
+# integers that are NOT powers of two but round to one as a float (and their neighbours that are)
+NUMBERS += [2 ** k + d for k in (52, 53, 54, 60, 63, 64, 100, 1023, 1024, 1025) for d in (-1, 0, 1)] + \
+           [2 ** 64 + 2 ** 10, 3 * 2 ** 1023, 2 ** 53 + 2, -(2 ** 53) - 1, 10 ** 30, 2.0 ** 53, 2.0 ** 1023]
 
 
 @battery("numbers")
@@ -1085,9 +1088,9 @@ def b_bar_place(tier, rnd):
     cases = []
     for (b,) in b_bars_filled(tier, rnd)["cases"][::3]:
         for v in (1, 2, 4, 8, 16, 3, 6, 1.5, 5, 12):
-            for content in (None, NoteContainer(["C", "E"]), "F#", "Bbb"):
-                cases.append((copy.deepcopy(b), content, v))
-    return {"rule": "every third intermediate state of the 'bars_filled' battery x 10 values x {rest, container, two bare names}",
+            for content in (None, NoteContainer(["C", "E"]), "F#", "Bbb", []):
+                cases.append((copy.deepcopy(b), copy.copy(content), v))
+    return {"rule": "every third intermediate state of the 'bars_filled' battery x 10 values x {rest, container, two bare names, an empty list}",
             "cases": cases}
 
 
